@@ -27,6 +27,15 @@ var replacements = map[string]string{
 	"encoding/asn1.Unmarshal":           "M_Asn1Unmarshal",
 	"crypto/x509.ParsePKIXPublicKey":    "M_ParsePKIXPublicKey",
 	"crypto/x509.MarshalPKIXPublicKey":  "M_MarshalPKIXPublicKey",
+	"crypto/ecdh.P256":                  "M_ECDH_P256",
+	"crypto/ecdh.P384":                  "M_ECDH_P384",
+	"(*crypto/ecdh.PrivateKey).Bytes":     "M_ECDHPrivBytes",
+	"(*crypto/ecdh.PrivateKey).PublicKey": "M_ECDHPrivPublicKey",
+	"(*crypto/ecdh.PrivateKey).Curve":     "M_ECDHPrivCurve",
+	"(*crypto/ecdh.PrivateKey).ECDH":      "M_ECDHPrivECDH",
+	"(*crypto/ecdh.PublicKey).Bytes":      "M_ECDHPubBytes",
+	"crypto/rsa.EncryptOAEP":            "M_EncryptOAEP",
+	"crypto/rsa.DecryptOAEP":            "M_DecryptOAEP",
 	"crypto/aes.NewCipher":              "M_AesNewCipher",
 	"crypto/cipher.NewGCM":              "M_NewGCM",
 	"crypto/cipher.NewCTR":              "M_NewCTR",
